@@ -510,6 +510,12 @@ class Interp(object):
         # `if s:` / `if s == 1:` on a small integer known to be one of a few values: the branch fixes the value, and with it every
         # symbolic length that was computed from it before the branch (rows P - s ...)
         nm, keep = None, None
+        if isinstance(test, ast.Name) and branch:
+            # `flag = a > 0 and ...` ... `if flag:`: a condition held under a local name bound once, whose operands are bound at most once in the
+            # function (so they still hold what the condition read), is the condition itself
+            cond = self._named_condition(fr, test.id)
+            if cond is not None:
+                self.refine(cond, state, True, fr)
         if isinstance(test, ast.Name):
             nm, keep = test.id, (lambda k: bool(k) == branch)
         elif isinstance(test, ast.Compare) and len(test.ops) == 1 and isinstance(test.left, ast.Name) and isinstance(test.comparators[0], ast.Constant) \
@@ -554,6 +560,37 @@ class Interp(object):
                     state.env[test.left.id] = const_av(None)
                 elif cur is not None and "maybe-none" in cur.tags:
                     state.env[test.left.id] = cur.replace(tags=cur.tags - frozenset(["maybe-none"]))       # present on this branch
+
+    def _named_condition(self, fr, name):
+        root = getattr(fr.fi, "node", None)
+        if root is None:
+            return None
+        cache = getattr(fr, "_named_conds", None)
+        if cache is None:
+            counts = {}
+            binds = {}
+            for n in ast.walk(root):
+                tg = []
+                if isinstance(n, ast.Assign):
+                    tg = [x for t in n.targets for x in ast.walk(t) if isinstance(x, ast.Name)]
+                    if len(n.targets) == 1 and isinstance(n.targets[0], ast.Name):
+                        binds.setdefault(n.targets[0].id, []).append(n.value)
+                elif isinstance(n, (ast.AugAssign, ast.AnnAssign)):
+                    tg = [x for x in ast.walk(n.target) if isinstance(x, ast.Name)]
+                elif isinstance(n, (ast.For, ast.comprehension)):
+                    tg = [x for x in ast.walk(n.target) if isinstance(x, ast.Name)]
+                elif isinstance(n, ast.NamedExpr):
+                    tg = [n.target]
+                for x in tg:
+                    counts[x.id] = counts.get(x.id, 0) + 1
+            cache = fr._named_conds = (counts, binds)
+        counts, binds = cache
+        vals = binds.get(name, [])
+        if len(vals) != 1 or counts.get(name, 0) != 1 or not isinstance(vals[0], (ast.Compare, ast.BoolOp)):
+            return None
+        if any(isinstance(x, ast.Name) and counts.get(x.id, 0) > 1 for x in ast.walk(vals[0])):
+            return None
+        return vals[0]
 
     def _subst_sym(self, state, atom, k):
         def fix(av):
@@ -1442,6 +1479,22 @@ class Interp(object):
 
     ex_GeneratorExp = ex_ListComp
 
+    def ex_DictComp(self, e, fr):
+        # {k: v for ...}: a dictionary whose keys are not enumerated; every value is the join element
+        saved = dict(fr.state.env)
+        for g in e.generators:
+            it = self.ev(g.iter, fr)
+            elem, trip, _ = self.iter_elem(it, fr, e)
+            self.assign(g.target, elem, fr, fr.cur_stmt, quiet=True)
+            for c in g.ifs:
+                if truthiness(self.ev(c, fr)) is False:
+                    fr.state.env = saved
+                    return AV(kind=K_DICT, dvals={}, dmust=frozenset(), dmay=frozenset(), origin=frozenset([self.alloc_tok(fr, e)]))
+        self.ev(e.key, fr)
+        v = self.ev(e.value, fr)
+        fr.state.env = saved
+        return AV(kind=K_DICT, elem=v, dvals={}, dmust=frozenset(), dmay=None, origin=frozenset([self.alloc_tok(fr, e)]))
+
     def ex_Slice(self, e, fr):
         parts = []
         for p in (e.lower, e.upper, e.step):
@@ -1485,8 +1538,11 @@ class Interp(object):
     def _adjacent_pair(a, b):
         """x[1:] and x[:-1] (either order) of one and the same expression x"""
         def sl(n):
-            if isinstance(n, ast.Subscript) and isinstance(n.slice, ast.Slice) and n.slice.step is None:
-                lo, up = n.slice.lower, n.slice.upper
+            s_ = n.slice if isinstance(n, ast.Subscript) else None
+            if isinstance(s_, ast.Tuple) and len(s_.elts) == 2 and isinstance(s_.elts[0], ast.Constant) and s_.elts[0].value is Ellipsis:
+                s_ = s_.elts[1]                 # y[..., 1:] / y[..., :-1]: the same pair along the last axis
+            if isinstance(n, ast.Subscript) and isinstance(s_, ast.Slice) and s_.step is None:
+                lo, up = s_.lower, s_.upper
                 one = lambda c, v: isinstance(c, ast.Constant) and c.value == v and not isinstance(c.value, bool)
                 neg1 = isinstance(up, ast.UnaryOp) and isinstance(up.op, ast.USub) and one(up.operand, 1)
                 if one(lo, 1) and up is None:
